@@ -30,6 +30,9 @@ class S(vlib.Spec):
         if case and case.get("kind") == "build":
             errs = " ".join(case.get("build_errors") or []) + " ".join(case.get("unparsable_files") or [])
             be = case.get("backend", "")
+            if "use_type_alias=false" in be and ("cannot use" in errs or "mismatched types" in errs) and code == 4:
+                # typedef of a base type generated as a defined type without conversions
+                return "C01-use_type_alias_false-base-typedef-conversions"
             # refine by the shape of the failure so that a different defect is reported separately
             for key, tag in (("declared and not used", "unused-variable"), ("redeclared", "redeclared"), ("imported and not used", "unused-import"),
                              ("undefined:", "undefined-identifier"), ("newline in string", "newline-in-literal"), ("cannot use", "type-mismatch"),
